@@ -287,11 +287,25 @@ func raisePointerRequired(v reflect.Value) Error {
 	return raiseCritical(ErrPointerRequired, "")
 }
 
+// typeName describes v for an error message. Evaluating a reference a second
+// time within the access that just failed can take the names registered by the
+// first evaluation for a cycle and come out differently: the description uses a
+// cache of its own, so that nothing it computes is seen by the running call.
+func typeName(opts *options, v value) string {
+	if opts == nil {
+		t, _ := v.typ(nil)
+		return t.name
+	}
+	o := *opts
+	o.parsed = valueCache{}
+	t, _ := v.typ(&o)
+	return t.name
+}
+
 func raiseToTypeNotSupported(opts *options, v value, goT reflect.Type) Error {
 	reason := ErrTypeMismatch
-	t, _ := v.typ(opts)
 	message := fmt.Sprintf("value of type '%v' not convertible into unsupported go type '%v'",
-		t.name, goT)
+		typeName(opts, v), goT)
 	ctx := v.Context()
 
 	return raiseCritical(reason, messagePath(reason, v.meta(), message, ctx.path(".")))
@@ -308,17 +322,15 @@ func raiseArraySize(ctx context, meta *Meta, n int, to int) Error {
 func raiseConversion(opts *options, v value, err error, to string) Error {
 	ctx := v.Context()
 	path := ctx.path(".")
-	t, _ := v.typ(opts)
-	message := fmt.Sprintf("can not convert '%v' into '%v'", t.name, to)
+	message := fmt.Sprintf("can not convert '%v' into '%v'", typeName(opts, v), to)
 	return raisePathErr(err, v.meta(), message, path)
 }
 
 func raiseExpectedObject(opts *options, v value) Error {
 	ctx := v.Context()
 	path := ctx.path(".")
-	t, _ := v.typ(opts)
 	message := fmt.Sprintf("required 'object', but found '%v' in field '%v'",
-		t.name, path)
+		typeName(opts, v), path)
 
 	return raiseErr(ErrExpectedObject, messageMeta(message, v.meta()))
 }
